@@ -472,6 +472,117 @@ def r7_eqsine(ctx):
     ctx.check(nret >= 4, f"eqsine rule bound to {nret} (flags, return) paths", fn, nontrivial=False)
 
 
+def _all_atoms(r):
+    """every atom of a formula, including those inside the arguments of opaque applications"""
+    out = set()
+    todo = [r]
+    while todo:
+        v = todo.pop()
+        for a in v.n.atoms() | v.d.atoms():
+            if a in out:
+                continue
+            out.add(a)
+            d = F.atom_desc(a)
+            if d[0] == "fn":
+                for k in d[2]:
+                    if not isinstance(k, str):
+                        todo.append(F.Rat(F._poly_from_key(k[1]), F._poly_from_key(k[2])))
+            elif d[0] in ("exp", "sin", "cos", "sqrt"):
+                todo.append(F.Rat(F._poly_from_key(d[1])))
+    return out
+
+
+def r8_peak_selectors(ctx):
+    """The reported spectrum value is the stated peak statistic of the response history over the time axis (axis 0; one column per signal):
+    'abs' max |x|, 'pos' |max x|, 'poss' max x, 'neg' |min x|, 'negs' min x, 'rms' sqrt(mean x^2).  Each selector function is evaluated on
+    symbols and compared with that definition (reductions in method or function form, mean or sum / number of time samples), and the
+    name -> function table of _process_inputs is checked against the same definitions."""
+    from .sem import Sem
+    RED = {"max": "max", "amax": "max", "min": "min", "amin": "min", "mean": "mean", "sum": "sum", "nanmax": "nanmax", "nanmin": "nanmin"}
+
+    def call(node, ev):
+        d = dotted(node.func) or ""
+        # reductions: x.max(axis=0) / np.max(x, axis=0) / np.amax(x, 0)
+        if isinstance(node.func, ast.Attribute) and node.func.attr in RED:
+            base = node.func.value
+            if d.startswith(("np.", "numpy.")) and node.args:
+                arr, rest = node.args[0], node.args[1:]
+            else:
+                arr, rest = base, node.args
+            a = ev.ev(arr)
+            ax = next((k.value for k in node.keywords if k.arg == "axis"), rest[0] if rest else None)
+            if is_unknown(a) or isinstance(a, tuple):
+                return NotImplemented
+            axv = ev.ev(ax) if ax is not None else F.sym("None")
+            if is_unknown(axv):
+                return NotImplemented
+            extra = [k.arg for k in node.keywords if k.arg not in ("axis",)]
+            if extra:
+                return NotImplemented
+            return F.fn("red:" + RED[node.func.attr], need(a), need(axv))
+        if d in ("len",) and node.args:
+            a = ev.ev(node.args[0])
+            return F.fn("nrows", need(a)) if not is_unknown(a) else NotImplemented
+        if d == "max" and len(node.args) == 2 and isinstance(node.args[1], ast.Constant) and node.args[1].value == 1:
+            return ev.ev(node.args[0])          # max(count, 1): the count itself for a non-empty history
+        return NotImplemented
+
+    def sub(node, ev):
+        # resp.shape[0] is the number of time samples
+        if isinstance(node.value, ast.Attribute) and node.value.attr == "shape" and isinstance(node.slice, ast.Constant) and node.slice.value == 0:
+            a = ev.ev(node.value.value)
+            return F.fn("nrows", need(a)) if not is_unknown(a) else NotImplemented
+        return NotImplemented
+
+    x = F.sym("resp")
+    zero = F.const(0)
+    mx, mn = F.fn("red:max", x, zero), F.fn("red:min", x, zero)
+    want = {
+        "abs": [F.fn("red:max", F.fn("abs", x), zero)],
+        "pos": [F.fn("abs", mx)],
+        "poss": [mx],
+        "neg": [F.fn("abs", mn)],
+        "negs": [mn],
+        "rms": [F.sqrt(F.fn("red:mean", x * x, zero)), F.sqrt(F.fn("red:sum", x * x, zero) / F.fn("nrows", x))],
+    }
+    words = {"abs": "max |x|", "pos": "|max x|", "poss": "max x", "neg": "|min x|", "negs": "min x", "rms": "sqrt(mean x^2) over the time samples"}
+    pi = ctx.src.func(SRS, "_process_inputs")
+    table = None
+    for st in walk_no_nested(pi):
+        if isinstance(st, ast.Assign) and isinstance(st.value, ast.Dict) and st.value.keys and all(isinstance(k, ast.Constant) for k in st.value.keys):
+            keys = [k.value for k in st.value.keys]
+            if set(keys) >= {"abs", "rms"}:
+                table = (st, dict(zip(keys, st.value.values)))
+    if table is None:
+        raise AnchorError("_process_inputs: peak-name table")
+    st, tab = table
+    ctx.check(set(tab) == set(want), "_process_inputs: the peak table offers exactly abs, pos, poss, neg, negs, rms", st, sorted(tab))
+    for key in sorted(want):
+        node = tab.get(key)
+        if node is None:
+            continue
+        if not isinstance(node, ast.Name):
+            ctx.error(f"peak '{key}': selector", st, ast.unparse(node))
+            continue
+        fn = ctx.src.func(SRS, node.id)
+        params = [a.arg for a in fn.args.args]
+        if len(params) != 1:
+            ctx.fail(f"peak '{key}': selector takes the response history only", fn, params)
+            continue
+        S = Sem(ctx, fn, call=call, subscript=sub, env={params[0]: x, params[0] + ".size": F.fn("nrows", x) * F.fn("ncols", x)})
+        got = S.ret()
+        if got is None or is_unknown(got) or isinstance(got, tuple):
+            ctx.error(f"peak '{key}': value of {node.id}", fn, repr(got))
+            continue
+        unmodelled = sorted({F.atom_desc(a)[1] for a in _all_atoms(need(got)) if F.atom_desc(a)[0] == "fn" and F.atom_desc(a)[1].startswith(("call:", "attr:", "idx"))})
+        if unmodelled and not any(need(got).equals(w) for w in want[key]):
+            ctx.error(f"peak '{key}': {node.id} uses operations this rule does not model", fn, unmodelled)
+            continue
+        ok = any(need(got).equals(w) for w in want[key])
+        ctx.check(ok, f"peak '{key}' -> {node.id}: returns {words[key]} along the time axis (axis 0), one value per signal", fn,
+                  None if ok else {"returns": repr(got), "definition": repr(want[key][0])})
+
+
 RULES = [
     ("C03-R1", r1_filters, 36),
     ("C03-R2", r2_zero_limits, 12),
@@ -479,6 +590,7 @@ RULES = [
     ("C03-R4", r4_windows, 8),
     ("C03-R6", r6_vrs, 5),
     ("C03-R7", r7_eqsine, 4),
+    ("C03-R8", r8_peak_selectors, 7),
 ]
 
 LEVEL = "other"
@@ -494,7 +606,8 @@ MANIFEST = {
             "(R2) each wn==0 branch is the wn->0 limit of its general branch; (R3) the steady-state initial-condition add-back in "
             "srs() and both parallel workers equals the filter's DC gain times the removed offset, and is absent exactly for the "
             "zero-gain types; (R6) both vrs loops integrate the closed-form transmissibility and Miles' expression; (R7) eqsine = /Q on "
-            "every return path. Not decided: scipy.signal.lfilter realising the recursion, resampling/rolloff quality, peak selection on data.",
+            "every return path; (R8) each peak selector (abs, pos, poss, neg, negs, rms) returns its stated statistic along the time axis and the name table maps "
+            "each name to the function with that value. Not decided: scipy.signal.lfilter realising the recursion, resampling/rolloff quality, vrs quadrature weights.",
     "note": "Trusted: CPython ast, verifier/e2_formula.py exact algebra (self-checks its reference homogeneous solution against the ODE on every run). "
             "Assumes scipy.signal.lfilter implements the difference equation of (b, a).",
     "technique": "static formula extraction + exact symbolic normal forms compared with an ODE-derived reference filter (z-transform of the exact one-step recurrence)",
